@@ -203,11 +203,58 @@ pub fn offsets_inconsistent(len: usize, find_at: &dyn Fn(usize) -> Option<(usize
     false
 }
 
+/// The same HIR compiled twice by regex-automata: with the engine configuration
+/// ripgrep uses (crates/regex/src/config.rs `to_regex`: full DFAs up to 1 MB / 1000
+/// states, a large lazy-DFA cache, a larger one-pass limit) and with every
+/// optimisation switched off (PikeVM only, no prefilter). Whatever the pattern, the
+/// two must report the same leftmost-first match from every start offset; where
+/// they do not, the regex engine contradicts itself on that haystack, which is a
+/// defect below ripgrep (second shape of the trusted-base crack: e.g.
+/// `(?:[ac]\p{Greek}[0-9])*c` on "a\u{370}0c" finds nothing under ripgrep's
+/// configuration from any offset, 0..5 under the plain one).
+pub struct EnginePair {
+    tuned: regex_automata::meta::Regex,
+    plain: regex_automata::meta::Regex,
+}
+
+impl EnginePair {
+    pub fn new(hir: &regex_syntax::hir::Hir) -> Option<EnginePair> {
+        use regex_automata::meta::Regex;
+        let tuned = Regex::builder()
+            .configure(
+                Regex::config()
+                    .utf8_empty(false)
+                    .onepass_size_limit(Some(10 * (1 << 20)))
+                    .dfa_size_limit(Some(1 << 20))
+                    .dfa_state_limit(Some(1_000))
+                    .hybrid_cache_capacity(1000 * (1 << 20)),
+            )
+            .build_from_hir(hir)
+            .ok()?;
+        let plain = Regex::builder()
+            .configure(Regex::config().utf8_empty(false).auto_prefilter(false).dfa(false).hybrid(false).onepass(false).backtrack(false))
+            .build_from_hir(hir)
+            .ok()?;
+        Some(EnginePair { tuned, plain })
+    }
+
+    pub fn disagree(&self, hay: &[u8]) -> bool {
+        if hay.len() > 3000 {
+            return false;
+        }
+        (0..=hay.len()).any(|i| {
+            let f = |re: &regex_automata::meta::Regex| re.find(regex_automata::Input::new(hay).span(i..hay.len())).map(|m| (m.start(), m.end()));
+            f(&self.tuned) != f(&self.plain)
+        })
+    }
+}
+
 /// Probe both sides of a disagreement for the trusted-base crack described at
 /// `engine_inconsistent_on_line`: `(matcher side, oracle side)`. The matcher is
 /// probed on the whole input and on every line's content alone (and alone versus
 /// in context), the oracle regex on every line's content and on the whole input.
-pub fn engine_probe<M: Matcher>(m: &M, re: Option<&regex::bytes::Regex>, input: &[u8], term: u8, crlf: bool) -> (bool, bool) {
+pub fn engine_probe(m: &RegexMatcher, re: Option<&regex::bytes::Regex>, input: &[u8], term: u8, crlf: bool) -> (bool, bool) {
+    let engines = EnginePair::new(m.verif_final_hir());
     let mfind = |hay: &[u8]| {
         let f = |i: usize| m.find_at(hay, i).ok().flatten().map(|x| (x.start(), x.end()));
         offsets_inconsistent(hay.len(), &f)
@@ -219,7 +266,7 @@ pub fn engine_probe<M: Matcher>(m: &M, re: Option<&regex::bytes::Regex>, input: 
         }
         None => false,
     };
-    let mut m_bad = mfind(input);
+    let mut m_bad = mfind(input) || engines.as_ref().map_or(false, |e| e.disagree(input));
     let mut o_bad = ofind(input);
     let mut start = 0;
     let mut n = 0;
@@ -230,7 +277,7 @@ pub fn engine_probe<M: Matcher>(m: &M, re: Option<&regex::bytes::Regex>, input: 
             ce -= 1;
         }
         let content = &input[start..ce];
-        m_bad = m_bad || mfind(content) || engine_inconsistent_on_line(m, input, start, ce);
+        m_bad = m_bad || mfind(content) || engine_inconsistent_on_line(m, input, start, ce) || engines.as_ref().map_or(false, |e| e.disagree(content));
         o_bad = o_bad || ofind(content);
         start = end + 1;
         n += 1;
@@ -241,7 +288,7 @@ pub fn engine_probe<M: Matcher>(m: &M, re: Option<&regex::bytes::Regex>, input: 
 /// Post-process a verdict: a failure on an input where the regex engine
 /// contradicts itself is attributed to that (known finding when the matcher
 /// side is affected, undecidable when only the oracle side is).
-pub fn attribute_engine<M: Matcher>(v: crate::runner::Verdict, m: &M, re: Option<&regex::bytes::Regex>, input: &[u8], term: u8, crlf: bool) -> crate::runner::Verdict {
+pub fn attribute_engine(v: crate::runner::Verdict, m: &RegexMatcher, re: Option<&regex::bytes::Regex>, input: &[u8], term: u8, crlf: bool) -> crate::runner::Verdict {
     use crate::runner::Verdict;
     match v {
         Verdict::Fail(f) if !f.facts.iter().any(|x| x == ENGINE_FACT) => {
